@@ -188,8 +188,17 @@ func ExistsBegin()          {}
 func ExistsEnd(c bool) bool { return c }
 
 // KnownFinding reports whether the engine treats the listed finding as live
-// (so that the harness excludes its region).  Natively nothing is excluded.
-func KnownFinding(id string) bool { return false }
+// (so that the harness excludes its region).  In a native replay the live set
+// is handed over in $VERIF_LIVE_FINDINGS; it is empty when a finding's own
+// witness is replayed, so that the witness still fails.
+func KnownFinding(id string) bool {
+	for _, x := range strings.Split(os.Getenv("VERIF_LIVE_FINDINGS"), ",") {
+		if x == id && id != "" {
+			return true
+		}
+	}
+	return false
+}
 
 // ReplayMain runs, for every file listed in $VERIF_REPLAY (comma separated),
 // the harness named in it and prints one outcome line per file.
